@@ -50,12 +50,19 @@ def read_vectors(path):
     return out
 
 
+PLAIN = {'syn': 'dot', 'ref': 'l', 'decl': 'l'}
+
+
 def site_name(v, verdict):
-    return 'scope:%s:%s:%s' % (v['ref']['ctx'], v['site']['k'], verdict)
+    sp = v.get('sp', PLAIN)
+    if sp == PLAIN:
+        return 'scope:%s:%s:%s' % (v['ref']['ctx'], v['site']['k'], verdict)
+    # the plain spelling of the same vector is always run too: a finding that only shows in this one is about spelling
+    return 'scope:%s:%s:%s:%s-ref%s-decl%s' % (v['ref']['ctx'], v['site']['k'], verdict, sp['syn'], sp['ref'], sp['decl'])
 
 
 def run_vectors(sd, vecs, reps):
-    inp = [{'id': i, 'sh': v['sh'], 'site': v['site'], 'ref': v['ref']} for i, v in enumerate(vecs)]
+    inp = [{'id': i, 'sh': v['sh'], 'site': v['site'], 'ref': v['ref'], 'sp': v.get('sp', PLAIN)} for i, v in enumerate(vecs)]
     vplib.write_jsonl(os.path.join(sd, 'in.jsonl'), inp)
     vplib.run_harness(['scope-run', os.path.join(sd, 'in.jsonl'), os.path.join(sd, 'out.jsonl'), str(reps)], timeout=3000)
     return vplib.read_jsonl(os.path.join(sd, 'out.jsonl'))
@@ -75,10 +82,13 @@ def run(ck, tier):
     seen = set()
     uniq = []
     for v in vecs:
-        key = json.dumps([v['sh'], v['site'], v['ref']], sort_keys=True)
+        key = json.dumps([v['sh'], v['site'], v['ref'], v['sp']], sort_keys=True)
         if key not in seen:
             seen.add(key)
             uniq.append(v)
+    # every vector is rendered in the plain spelling (dotted, lower case) and in the spelling TLC assigned to it
+    # (index syntax and/or upper-case reference and/or upper-case declarations): same predicted verdict
+    uniq = [dict(v, sp=PLAIN) for v in uniq] + [v for v in uniq if v['sp'] != PLAIN]
     random.Random(vplib.seed()).shuffle(uniq)     # the seed decides which vectors share a worker, nothing else
     reps = 0     # every permutation of the textual (= visiting) order of the jobs
     outs = run_vectors(sd, uniq, reps)
@@ -101,16 +111,16 @@ def run(ck, tier):
                          % (o_ref(v), v['site'], 'not defined' if want else 'defined',
                             'does not report it' if want else 'reports ' + '; '.join(o['msgs'][:1]),
                             sum(1 for s in o['seen'] if s != want), len(o['seen'])),
-                         {'kind': 'scope', 'sh': v['sh'], 'site': v['site'], 'ref': v['ref'], 'def': v['def'],
+                         {'kind': 'scope', 'sh': v['sh'], 'site': v['site'], 'ref': v['ref'], 'def': v['def'], 'sp': v['sp'],
                           'ctx': v['ref']['ctx'], 'site_kind': v['site']['k'], 'verdict': verdict, 'seen': o['seen']})
     # binding self-test: a vector whose reference is swapped for one with the opposite verdict must be rejected
     by_site = {}
     for v in uniq:
-        by_site.setdefault((json.dumps(v['sh'], sort_keys=True), json.dumps(v['site'], sort_keys=True), v['ref']['ctx']), {})[v['def']] = v
+        by_site.setdefault((json.dumps(v['sh'], sort_keys=True), json.dumps(v['site'], sort_keys=True), v['ref']['ctx'], json.dumps(v['sp'], sort_keys=True)), {})[v['def']] = v
     pair = next((d for d in by_site.values() if True in d and False in d), None)
     if pair is None:
         raise Inconclusive('binding self-test: no site with a defined and an undefined reference')
-    forged = dict(pair[True], ref=pair[False]['ref'])
+    forged = dict(pair[True], ref=pair[False]['ref'], sp=PLAIN)
     so = run_vectors(vplib.subdir('c05self'), [forged], reps)[0]
     ok = not so['other'] and all(s != (not forged['def']) for s in so['seen'])
     ck.cov['binding_selftest'] = 'rejected' if ok else 'NOT rejected'
@@ -135,7 +145,9 @@ def run(ck, tier):
         'reusable-workflow jobs call a remote workflow (outputs unknown); local callee files are not generated',
         'a job never needs itself (the code skips the entry, DESIGN A.2 does not speak about it)',
         'steps referenced by id are run: steps or unknown actions (outputs are a free map); callee-declared outputs belong to C14',
-        'references are wrapped in toJSON() so that only the scope diagnostic can arise; spelling variants belong to C08',
+        'references are wrapped in toJSON() so that only the scope diagnostic can arise',
+        'each vector is linted in the plain spelling and in ONE of the 7 other spellings (index syntax / upper-case reference / '
+        'upper-case declarations) assigned by the specification; all 8 spellings occur for every context and site kind',
         'a literally known step id keeps its fixed property set even when another step id is an expression',
         'rule objects are created per workflow: per-workflow state (inputsTy, secretsTy, jobsTy) is never reused',
         'Go map iteration order cannot be forced: shapes with several jobs are linted several times (sound, not complete); '
